@@ -1,5 +1,6 @@
 import IgrisModel.Common.Proto
 import IgrisModel.C13.Model
+import IgrisModel.C13.Shape
 open Igris.Proto Igris.C13
 
 def hexOfChars (cs : List Char) : String :=
@@ -19,6 +20,25 @@ def showBits (v : FV) : String :=
 
 def parseStar (w : String) : Option Igris.C06.Arg := w.toInt?.map fun v => Igris.C06.Arg.int (BitVec.ofInt 32 v)
 
+/-- the ISO shape predicate of `Shape.lean` on a given text: the directive is parsed with the
+C06 parser exactly as `directive` does -/
+def shapeOfFmt (fmt : List Char) (stars : List Igris.C06.Arg) (neg : Bool) (text : List Char) : Option Bool :=
+  let begin := fmt.dropWhile (· ≠ '%')
+  let (s, ops) := Igris.C06.flagsLoop begin.tail {}
+  match Igris.C06.getWidth s stars ops with
+  | none => none
+  | some (width, s, stars, ops) =>
+    match Igris.C06.getPrec s stars ops with
+    | none => none
+    | some (precision, s, _, ops) =>
+      let (s, ops) := Igris.C06.getLen s ops
+      let c := Igris.C06.hd s
+      let ops := if c.isUpper then { ops with upper := true } else ops
+      let conv : Option Conv :=
+        if c = 'f' || c = 'F' then some .f else if c = 'e' || c = 'E' then some .e
+        else if c = 'g' || c = 'G' then some .g else none
+      conv.map fun cv => isoShape cv ops width precision neg text
+
 def stepLine (_ : Unit) (line : String) : Unit × String :=
   let r : Option String :=
     match words line with
@@ -27,6 +47,12 @@ def stepLine (_ : Unit) (line : String) : Unit × String :=
       let bits ← parseHexNat? b
       let st ← stars.mapM parseStar
       pure (showRes (printfF b64A cfgNow fmt st (ofBits bits) (decide (bits ≥ 2 ^ 63))))
+    | "sh" :: f :: n :: t :: stars | "shm" :: f :: n :: t :: stars => do
+      let fmt ← (parseBytes? f).map fun bs => bs.map fun c => Char.ofNat c.toNat
+      let text ← (parseBytes? t).map fun bs => bs.map fun c => Char.ofNat c.toNat
+      let st ← stars.mapM parseStar
+      let r ← shapeOfFmt fmt st (n = "1") text
+      pure (if r then "1" else "0")
     | "pfL" :: f :: se :: m :: stars => do
       let fmt ← (parseBytes? f).map fun bs => bs.map fun c => Char.ofNat c.toNat
       let se ← parseHexNat? se
